@@ -101,12 +101,21 @@ pub fn workspaces(tier: Tier, mut f: impl FnMut(LspWs) -> bool) {
             tgv_core::words::decode(idx, n as u64, max_len, &mut word);
             for nonascii in [false, true] {
                 for crlf in [false, true] {
-                    let a_body: String = word.iter().map(|&i| A_ITEMS[i]).collect::<Vec<_>>().join("\n");
-                    let a = format!("// root\ninclude \"b.td\"\n{a_body}\n");
-                    let b = format!("// b line 1\n// b line 2\n/* b line 3\n   b line 4 */\n\n{}\n", bv.join("\n"));
-                    let ws = LspWs { files: vec![("a.td".into(), encode(&a, nonascii, crlf)), ("b.td".into(), encode(&b, nonascii, crlf))] };
-                    if !f(ws) {
-                        return;
+                    // with and without a line terminator after the last token (a span that ends at the end of the text)
+                    for final_newline in [true, false] {
+                        let a_body: String = word.iter().map(|&i| A_ITEMS[i]).collect::<Vec<_>>().join("\n");
+                        let a = format!("// root\ninclude \"b.td\"\n{a_body}\n");
+                        let b = format!("// b line 1\n// b line 2\n/* b line 3\n   b line 4 */\n\n{}\n", bv.join("\n"));
+                        let (mut ta, mut tb) = (encode(&a, nonascii, crlf), encode(&b, nonascii, crlf));
+                        if !final_newline {
+                            // the statement being typed: no terminator, its last identifier touches the end of the text
+                            ta.truncate(ta.trim_end_matches(['\r', '\n', ';']).len());
+                            tb.push_str("def btail : B1<9");
+                        }
+                        let ws = LspWs { files: vec![("a.td".into(), ta), ("b.td".into(), tb)] };
+                        if !f(ws) {
+                            return;
+                        }
                     }
                 }
             }
@@ -304,7 +313,7 @@ impl Engine for C09 {
     fn rule(&self, tier: Tier) -> String {
         format!(
             "two-file workspaces: root a.td = prologue + include \"b.td\" + every sequence of 1..={} of {} statements that use b's declarations; b.td = a longer, differently-lined prologue + all {} declarations or all but one; \
-             x {{ASCII, 'é😀' before every statement and inside a string}} x {{LF, CRLF}}; the root is opened in the real server (framed JSON-RPC over an in-memory pipe) and, one message at a time, \
+             x {{ASCII, 'é😀' before every statement and inside a string}} x {{LF, CRLF}} x {{complete, or ending in an unterminated statement whose last token touches the end of the text (both files)}}; the root is opened in the real server (framed JSON-RPC over an in-memory pipe) and, one message at a time, \
              definition and references at the start and middle of every identifier of both files, documentSymbol, foldingRange, documentLink, inlayHint(whole file) per file and the published diagnostics are compared. \
              non-trivial = every workspace (each has cross-file locations); distinct by construction.",
             tier.pick(2, 3),
